@@ -51,6 +51,10 @@ pub struct ReadersCase {
     /// garbage collections of the history cannot take the lock: they have to give up, not to go on without it)
     #[serde(default)]
     pub gc_lock_fault: bool,
+    /// the writer thread pauses this many microseconds after every operation (steering only: gives the readers many
+    /// reloads - and lock hand-overs between them - per commit, merge and collection)
+    #[serde(default)]
+    pub pace_us: u16,
 }
 
 struct Obs {
@@ -127,17 +131,17 @@ impl Sub for Readers {
             2 => Just(Op::Gc),
         ];
         let reader = (any::<bool>(), 1u8..4, prop::option::weighted(0.6, 0u8..12), any::<bool>(), prop::bool::weighted(0.3)).prop_map(|(second_index, hold_every, gate_nth, warmer, auto)| ReaderSpec { second_index, hold_every, gate_nth, warmer, auto });
-        (cfg, prop::collection::vec(op, 6..50), prop::collection::vec(reader, 1..4), prop::bool::weighted(0.2))
-            .prop_map(|(cfg, ops, readers, gc_lock_fault)| {
+        (cfg, prop::collection::vec(op, 6..50), prop::collection::vec(reader, 1..4), prop::bool::weighted(0.2), prop_oneof![2 => Just(0u16), 1 => 200u16..1500, 1 => 1500u16..6000])
+            .prop_map(|(cfg, ops, readers, gc_lock_fault, pace_us)| {
                 let gc_lock_fault = gc_lock_fault && cfg.dir == DirKind::Sim;
                 // (an explicit collection reports the lock error to its caller: left out of these histories)
                 let ops = if gc_lock_fault { ops.into_iter().filter(|o| !matches!(o, Op::Gc)).collect() } else { ops };
-                ReadersCase { cfg, ops, readers, gc_lock_fault }
+                ReadersCase { cfg, ops, readers, gc_lock_fault, pace_us }
             })
             .boxed()
     }
     fn mandatory_labels(&self, _t: Tier) -> Vec<&'static str> {
-        vec!["reload_overlapped_commit", "held_outlived_2_commits", "gate_reached", "second_index", "dir:Mmap", "merge", "gc", "warmer", "warmed_generations>=3", "reload_policy:on_commit", "watcher_reload_advanced_between_commits", "watcher_reload_reached_last_commit", "gc_could_not_take_meta_lock"]
+        vec!["reload_overlapped_commit", "held_outlived_2_commits", "gate_reached", "second_index", "dir:Mmap", "merge", "gc", "warmer", "warmed_generations>=3", "reload_policy:on_commit", "watcher_reload_advanced_between_commits", "watcher_reload_reached_last_commit", "gc_could_not_take_meta_lock", "mmap_reader_held_inside_meta_lock", "mmap_two_readers_held_inside_meta_lock"]
     }
     fn run(&self, c: &ReadersCase, cx: &Ctx) -> CaseResult {
         let mut env = Env::new(c.cfg.clone())?;
@@ -182,11 +186,35 @@ impl Sub for Readers {
             }
         }
         let first_index = env.index.clone();
+        let mut hold_counters: Vec<Arc<AtomicU64>> = vec![];
         let mut history_result: CaseResult = Ok(());
         let outs: Vec<ReaderOut> = std::thread::scope(|scope| {
             let mut handles = vec![];
             for (i, r) in c.readers.iter().enumerate() {
-                let index = if r.second_index { second_index.clone().unwrap() } else { first_index.clone() };
+                let index = if r.second_index {
+                    match &env.dir {
+                        // on the real directory every such reader gets its own Index over its own MmapDirectory, behind a
+                        // HoldDir that holds the reader now and then right after it resolved meta.json (inside the section
+                        // protected by the flock-based meta lock) so that the writer's garbage collection, and the other
+                        // readers, really queue up on that lock
+                        DirHandle::Mmap(p) => {
+                            let every = r.gate_nth.map(|n| (n % 3) as u64 + 1).unwrap_or(0);
+                            let md = match tantivy::directory::MmapDirectory::open(p) {
+                                Ok(md) => md,
+                                Err(_) => return vec![ReaderOut { obs: vec![], held: vec![], error: Some(Failure::new("INFRA:mmap", "")), reader: None, warmed: 0, unwarmed: 0 }],
+                            };
+                            let hd = crate::holddir::HoldDir::new(md, "reader-", every, Duration::from_millis(12));
+                            hold_counters.push(hd.holds_done.clone());
+                            match Index::open(hd) {
+                                Ok(ix) => ix,
+                                Err(e) => return vec![ReaderOut { obs: vec![], held: vec![], error: Some(Failure::new("second_index_open_failed", format!("{e:?}"))), reader: None, warmed: 0, unwarmed: 0 }],
+                            }
+                        }
+                        _ => second_index.clone().unwrap(),
+                    }
+                } else {
+                    first_index.clone()
+                };
                 let clock = clock.clone();
                 let stop = stop.clone();
                 let hold_every = r.hold_every.max(1) as usize;
@@ -366,6 +394,9 @@ impl Sub for Readers {
                 if is_commit && env.commits > before {
                     spans.push((env.commits, t0, t1));
                 }
+                if c.pace_us > 0 {
+                    std::thread::sleep(Duration::from_micros(c.pace_us as u64));
+                }
             }
             // let every reader do at least one more reload after the last commit, then stop
             stop.store(true, Ordering::SeqCst);
@@ -459,6 +490,8 @@ impl Sub for Readers {
         cx.label_if(env.stats.merges > 0, "merge");
         cx.label_if(env.stats.gc > 0, "gc");
         cx.label_if(c.readers.iter().any(|r| r.warmer), "warmer");
+        cx.label_if(hold_counters.iter().any(|h| h.load(Ordering::SeqCst) > 0), "mmap_reader_held_inside_meta_lock");
+        cx.label_if(hold_counters.iter().filter(|h| h.load(Ordering::SeqCst) > 0).count() >= 2, "mmap_two_readers_held_inside_meta_lock");
         cx.label_if(c.readers.iter().any(|r| r.auto), "reload_policy:on_commit");
         cx.label_if(auto_advanced, "watcher_reload_advanced_between_commits");
         cx.label_if(auto_caught_up, "watcher_reload_reached_last_commit");
